@@ -87,8 +87,17 @@ func c15CorpusCase(r *mon.Run, ci corpusItem) {
 			break
 		}
 	}
-	if total != n {
-		r.Violate("comment-count", c, "%s: %d comments injected, %d comment tokens in the raw rendering", shortPath(name), n, total)
+	// the program's own comments (the cgo preamble is the only kind the translation keeps) are there without any
+	// injection: they are counted on the raw rendering of the build without injected comments
+	base := 0
+	plain.File.NoFormat = true
+	if praw, e1, e2 := plain.Render(); e1 == "" && e2 == "" {
+		for _, k := range a2j.CommentTokens(praw) {
+			base += k
+		}
+	}
+	if total != n+base {
+		r.Violate("comment-count", c, "%s: %d comments injected next to %d of the program's own, %d comment tokens in the raw rendering", shortPath(name), n, base, total)
 	}
 	// in the formatted output every comment is still there: each marker sits in exactly one comment token
 	// (gofmt itself may add bare "//" separator lines when it re-flows a doc comment, so tokens are not counted)
